@@ -11,7 +11,7 @@ import checks
 
 MODULES = {}
 for _m in pkgutil.iter_modules(checks.__path__):
-    if _m.name.startswith("c") and _m.name[1:].isdigit():
+    if _m.name[:1] in ("c", "x") and _m.name[1:].isdigit():   # cNN: listed properties, xNN: extended coverage
         mod = importlib.import_module("checks." + _m.name)
         if hasattr(mod, "check"):
             MODULES[_m.name.upper()] = mod
